@@ -192,6 +192,6 @@ def run_case(case, ctx):
     for bad in [(n, p), (-n - 1, p), (0, p + 1), (0, -1), (0.5, p), (0, 1.0), ("a", 0), (0, 0, 0)]:
         o = call(lambda: f[bad])
         ctx.check(not o.ok, "index:bad-accepted", f"f[{bad}] was accepted")
-    for u in gen.outside_params(U)[:3]:
+    for u in gen.outside_params(U, nt in ("frac", "int"))[:8]:
         o = call(lambda: f[:, p](lib.num(u, "frac" if nt == "int" else nt)))
         ctx.check((not o.ok) and isinstance(o.exc, ValueError), "basis:outside", f"f[:, p]({u}) outside the interval: {o.brief() if not o.ok else lib.short(o.value)}")
